@@ -160,7 +160,7 @@ pub fn run_check(prop: &str, tier: &str) -> i32 {
             report.set("explanation", "deviation-bounded depth-first exploration of all schedules of each program under a controlled scheduler over real threads (one runs at a time, switches only at hook points); every complete execution's call/return history is checked by brute-force linearization against the LWW model with the two permitted refusals");
         }
         "C08" => {
-            let bound = if thorough { 2 } else { 1 };
+            let bound = if thorough { 3 } else { 2 };
             let progs = c08::programs(thorough);
             schedprops::run_programs(progs, bound, 4000, budget, &schedprops::judge_linearizable, None, &["C08", "C07", "C14", "C20"], &mut report);
             report.set("explanation", "controlled scheduler over application threads, the flush worker and the periodic coordinator of a real persistent store on 3-6 block devices; every read result is checked by linearization against the model (StaleExtent permitted only under a concurrent rewrite) and an I/O monitor fails the run if a device write intersects an extent a reader still holds");
@@ -170,7 +170,7 @@ pub fn run_check(prop: &str, tier: &str) -> i32 {
             c17::check(tier, budget, &mut report);
         }
         "C18" => {
-            let bound = if thorough { 2 } else { 1 };
+            let bound = if thorough { 3 } else { 2 };
             let mut progs = c08::contention_programs(thorough);
             progs.extend(c08::programs(false).into_iter().step_by(5));
             schedprops::run_programs(progs, bound, 4000, budget, &schedprops::judge_linearizable, None, &["C18"], &mut report);
@@ -219,7 +219,7 @@ pub fn run_check(prop: &str, tier: &str) -> i32 {
                 suite.name = format!("{}~nocache", suite.name);
             }
             seq_check(prop, tier, s, &["C16", "C01", "C11", "C14"], budget * 0.4, &mut report);
-            schedprops::run_programs(concprogs::warm_programs(false), 1, 4000, budget * 0.3, &schedprops::judge_linearizable, None, &["C16", "C07", "C08", "C14"], &mut report);
+            schedprops::run_programs(concprogs::warm_programs(false), if thorough { 3 } else { 2 }, 4000, budget * 0.3, &schedprops::judge_linearizable, None, &["C16", "C07", "C08", "C14"], &mut report);
         }
         "C11" => {
             let s = pick(&["mem-ttl", "disk-v3-ttl", "disk-v1-ttl", "focus-v3-ttl", "focus-v2-ttl", "focus-v3-ttl-nocache", "ts-mem"], thorough);
@@ -352,6 +352,29 @@ pub fn replay(path: &str) -> i32 {
             2
         }
     }
+}
+
+/// Debug aid: explore one program at a bound and print the statistics.
+pub fn sched_prog(name: &str, bound: u32, seconds: f64) -> i32 {
+    let Some(p) = all_sched_programs().into_iter().find(|p| p.name == name) else {
+        eprintln!("program {name} not found");
+        return 2;
+    };
+    let found = std::sync::Mutex::new(Vec::new());
+    let mach = std::sync::Mutex::new(Vec::new());
+    let dl = Deadline::new(seconds);
+    let st = schedprops::explore_program(&p, bound, 4000, &dl, worker_threads(), &schedprops::judge_linearizable, None, &found, &mach);
+    println!(
+        "program {name} bound {bound}: schedules {} decisions {} distinct histories {} results {} complete {} longest {} wall {:.1}s",
+        st.executions, st.decisions, st.distinct_histories, st.distinct_results, st.complete, st.max_trace, dl.elapsed()
+    );
+    for m in mach.lock().unwrap().iter() {
+        println!("MACHINERY {m}");
+    }
+    for f in found.lock().unwrap().iter().take(3) {
+        println!("VIOLATION schedule {:?} reproduced={} {}", f.schedule, f.reproduced, f.msg.lines().next().unwrap_or(""));
+    }
+    0
 }
 
 pub fn all_sched_programs() -> Vec<schedprops::Program> {
